@@ -72,7 +72,15 @@ pub fn run_history_pre(ctx: &mut Ctx, open: &str, edits: &[Edit], previous: Opti
                 model.text = e.text.clone();
             }
             Some((s, t)) => {
-                if !model.apply(s, t, &e.text) {
+                // a column past the line's content stands for the line end (LSP 3.17)
+                let (cs, ct) = match (model.canonical(s), model.canonical(t)) {
+                    (Some(a), Some(b)) => (a, b),
+                    _ => {
+                        ctx.excluded("generator produced an invalid edit");
+                        return Ok(());
+                    }
+                };
+                if !model.apply(cs, ct, &e.text) {
                     // generator bug, not a finding
                     ctx.excluded("generator produced an invalid edit");
                     return Ok(());
@@ -124,7 +132,7 @@ pub fn run_history_pre(ctx: &mut Ctx, open: &str, edits: &[Edit], previous: Opti
     Ok(())
 }
 
-fn strings_upto(n: usize) -> Vec<String> {
+pub fn strings_upto(n: usize) -> Vec<String> {
     let mut out = vec![String::new()];
     let mut frontier = vec![String::new()];
     for _ in 0..n {
@@ -161,7 +169,21 @@ pub fn gen_edit(c: &mut Choices, doc: &ClientDoc) -> Edit {
     let ps = doc.positions();
     let i = c.below(ps.len());
     let j = if c.chance(100) { i } else { i + c.below((ps.len() - i).min(6)) };
-    Edit { range: Some((ps[i].0, ps[j].0)), text }
+    let (mut start, mut end) = (ps[i].0, ps[j].0);
+    // now and then a line-end position is sent as a column past the line's content (valid LSP:
+    // it "defaults back to the line length")
+    if c.chance(40) {
+        let lines = doc.lines();
+        let eol = |k: usize| lines.get(ps[k].0.line as usize).map(|l| l.1 == ps[k].1).unwrap_or(false);
+        let extra = *c.pick(&[1u32, 2, 5, 70000]);
+        if eol(j) {
+            end.col += extra;
+            if i == j {
+                start.col += extra;
+            }
+        }
+    }
+    Edit { range: Some((start, end)), text }
 }
 
 /// Black-box tier: one real server per history; `disk`: None = file absent on disk,
@@ -226,8 +248,16 @@ pub fn run_history_lsp_pre(ctx: &mut Ctx, open: &str, disk: Option<&str>, notes:
                     Some((s, t)) => {
                         // the deprecated but valid `rangeLength` (UTF-16 units of the replaced
                         // client text, as VS Code sends it) on every other ranged change
-                        let range_len: Option<usize> = model.slice(s, t).map(|old| old.encode_utf16().count());
-                        if !model.apply(s, t, &e.text) {
+                        let (Some(cs), Some(ct)) = (model.canonical(s), model.canonical(t)) else {
+                            ctx.excluded("generator produced an invalid edit");
+                            lsp.kill();
+                            return Ok(());
+                        };
+                        if (cs, ct) != (s, t) {
+                            ctx.class("change with a column past the end of its line");
+                        }
+                        let range_len: Option<usize> = model.slice(cs, ct).map(|old| old.encode_utf16().count());
+                        if !model.apply(cs, ct, &e.text) {
                             ctx.excluded("generator produced an invalid edit");
                             lsp.kill();
                             return Ok(());
@@ -305,6 +335,22 @@ impl Property for C13 {
                         if let Err(f) = run_history(ctx, d, std::slice::from_ref(&e)) {
                             ctx.fail(f);
                             return;
+                        }
+                        // the same edit with its end (and its start, if that is a line end too) given
+                        // as a column past the line's content
+                        let lines = doc.lines();
+                        let at_eol = |k: usize| lines.get(ps[k].0.line as usize).map(|l| l.1 == ps[k].1).unwrap_or(false);
+                        if at_eol(j) {
+                            for extra in [1u32, 1000] {
+                                let end = Pos { line: ps[j].0.line, col: ps[j].0.col + extra };
+                                let start = if i == j || (at_eol(i) && extra == 1000) { Pos { line: ps[i].0.line, col: ps[i].0.col + extra } } else { ps[i].0 };
+                                let e2 = Edit { range: Some((start, end)), text: r.clone() };
+                                if let Err(f) = run_history(ctx, d, std::slice::from_ref(&e2)) {
+                                    ctx.fail(f);
+                                    return;
+                                }
+                                ctx.class("edit with a column past the end of its line");
+                            }
                         }
                         let near_multi = !d.is_ascii() || !r.is_ascii() || d.contains('\r') || r.contains('\r');
                         let last_line = ps[j].0.line as usize == doc.lines().len() - 1;
